@@ -197,7 +197,7 @@ func (x *Exec) callWrites(c *ssa.CallCommon, w *writeSet, depth int) {
 			return // methods of type parameters are modelled as pure functions of the receiver
 		}
 		if fc := x.eng.cs.Funcs[key]; fc != nil {
-			x.contractWrites(fc, w)
+			x.contractWritesAt(fc, w, c)
 			return
 		}
 		if x.eng.builtinInvoke(key) {
@@ -214,7 +214,7 @@ func (x *Exec) callWrites(c *ssa.CallCommon, w *writeSet, depth int) {
 			callee = mc.Fn.(*ssa.Function)
 		} else if key := x.funcFieldKey(c.Value); key != "" {
 			if fc := x.eng.cs.Funcs[key]; fc != nil {
-				x.contractWrites(fc, w)
+				x.contractWritesAt(fc, w, c)
 				return
 			}
 			w.all = true
@@ -232,7 +232,7 @@ func (x *Exec) callWrites(c *ssa.CallCommon, w *writeSet, depth int) {
 	}
 	key := funcKey(callee)
 	if fc := x.eng.cs.Funcs[key]; fc != nil && !fc.Flags["inline"] {
-		x.contractWrites(fc, w)
+		x.contractWritesAt(fc, w, c)
 		return
 	}
 	if x.eng.hasBuiltin(callee) {
@@ -260,6 +260,42 @@ func (x *Exec) callWrites(c *ssa.CallCommon, w *writeSet, depth int) {
 	cw.cells = map[*ssa.Alloc]bool{}
 	x.eng.fnWrites[callee] = cw
 	w.union(cw)
+}
+
+// contractWritesAt: like contractWrites, but `*p` assigns whose argument at this call site is a static
+// location (address of a local, a slice element, a field) are already covered by the argument analysis
+// and do not add the type-wide heap field keys.
+func (x *Exec) contractWritesAt(fc *FuncContract, w *writeSet, c *ssa.CallCommon) {
+	if !fc.HasAssigns {
+		return
+	}
+	filtered := *fc
+	filtered.Assigns = nil
+	sig, _ := x.eng.signatureOf(fc)
+	for _, a := range fc.Assigns {
+		if u, ok := a.(*CUn); ok && u.Op == "*" {
+			if id, ok := u.X.(*CIdent); ok && sig != nil {
+				idx := -1
+				for i := 0; i < sig.Params().Len(); i++ {
+					if sig.Params().At(i).Name() == id.Name {
+						idx = i
+					}
+				}
+				off := 0
+				if sig.Recv() != nil && !c.IsInvoke() {
+					off = 1
+				}
+				if idx >= 0 && idx+off < len(c.Args) {
+					switch c.Args[idx+off].(type) {
+					case *ssa.Alloc, *ssa.IndexAddr, *ssa.FieldAddr:
+						continue
+					}
+				}
+			}
+		}
+		filtered.Assigns = append(filtered.Assigns, a)
+	}
+	x.contractWrites(&filtered, w)
 }
 
 func (x *Exec) contractWrites(fc *FuncContract, w *writeSet) {
@@ -311,6 +347,7 @@ func (x *Exec) havoc(fr *Frame, st *State, w *writeSet) {
 			continue
 		}
 		st.heap[k] = x.sc.freshConst("hv_"+k, srt)
+		x.closure(k, st.heap[k], fmt.Sprintf("(+ %s %d)", x.allocBase, x.allocN))
 	}
 	var rks []string
 	for k := range w.regions {
@@ -585,7 +622,7 @@ func (e *Env) inState(st *State) *Env {
 
 // loopEnv resolves source variable names at a loop header.
 func (x *Exec) loopEnv(fr *Frame, head *ssa.BasicBlock, st *State) *Env {
-	env := &Env{vars: map[string]Val{}, cur: st, old: x.old, pkg: fr.fn.Pkg.Pkg, fr: fr, at: head, x: x}
+	env := &Env{vars: map[string]Val{}, cur: st, old: x.old, pkg: fr.fn.Pkg.Pkg, fr: fr, at: head, x: x, freshLo: "allocBase0"}
 	env.lookup = func(name string) (Val, bool) {
 		return x.lookupVar(fr, head, len(head.Instrs), name, env.cur)
 	}
